@@ -1,6 +1,6 @@
 """C01 - compiled TEAL computes what the PyTeal expression denotes.
 
-spec -> code: every behaviour of spec/Builder.tla (exhaustive up to a node budget over small alphabets,
+spec -> code: every behaviour of spec/Gen.tla (exhaustive up to a node budget over small alphabets,
 plus -simulate walks over wider ones) is replayed into the real PyTeal constructors and compiled for
 every version/mode in which it compiles.
 code -> spec: the emitted TEAL is run by TLC on spec/AVM.tla for every context of the recipe's context
@@ -61,7 +61,7 @@ def main():
     chk.notes["recipes"] = len(progs)
     chk.notes["compilations_succeeded"] = ncompiled
     chk.notes["distinct_texts"] = sum(len(e["texts"]) for e in entries)
-    chk.notes["rule"] = ("recipes enumerated by TLC from spec/Builder.tla (exhaustive BFS per alphabet, sampled to a cap, "
+    chk.notes["rule"] = ("recipes enumerated by TLC from spec/Gen.tla (exhaustive BFS per alphabet, sampled to a cap, "
                          "plus seeded simulation); non-trivial = distinct emitted instruction stream whose run executed a "
                          "branch, call, loop or effect")
     chk.assumptions += ["AVM.tla transcribes the TEAL semantics of DESIGN.md Appendix B",
